@@ -50,6 +50,11 @@ def scratch_copy(tag: str) -> str:
     return d
 
 
+def copy_tree(src: str, dst: str):
+    os.makedirs(dst, exist_ok=True)
+    subprocess.run(["rsync", "-a", "--exclude", "/target", src + "/", dst + "/"], check=True)
+
+
 def remove_scratch(d: str):
     if os.environ.get("VERIF_KEEP") == "1":
         log(f"[keep] scratch left at {d}")
